@@ -6,8 +6,14 @@ import VivModel.Model.Components
   mgr <name> <defs>               one iteration of add_managers
   add <k> <nodes>                 SimulationContext.add_components: a forest of k trees, nodes in
                                   pre-order as name:arity:defs
+  addk <fault> <k> <nodes>        the same call with the caller catching the refusal: the state the call leaves behind is kept
+                                  (earlier members registered, defaults written before the refusal); fault = - | sub | defs:<i>
+                                  (a `sub_components` property raises / the `configuration_defaults` of the i-th flattened
+                                  component raises); reply `ok <components>` or `err:<class> <components>`
   setup <probes> <attempts>       SimulationContext.setup(): interprets Viv.Gen.skeleton "setup"
-  get <path>                      value of a leaf path (outermost layer that has it)
+  setupk <boom> <probes> <attempts>   setup() in which the `setup` of the object called <boom> raises (caught by the caller):
+                                  reply `err:usererror <log> <seen> <tried>` with what happened before, state left behind kept
+  get <path>                      value of a leaf path (outermost layer that has it); `val TREE` for an interior key
   set <path> <val>                configuration.update at the outermost layer
   setl <layer> <path> <val>       configuration.update(…, layer=<layer>)
   del <key>                       del configuration.<key> (never refused: the library ignores freeze, F18)
@@ -17,7 +23,7 @@ open Viv Viv.Proto Viv.Components
 
 def errName : Err → String
   | .dupName => "dupname" | .dupValue => "dupvalue" | .frozen => "frozen" | .noLayer => "nolayer" | .structure => "structure"
-  | .constraint => "constraint" | .transition => "transition"
+  | .constraint => "constraint" | .transition => "transition" | .userError => "usererror"
 
 def parseDefs (s : String) : Option Defaults :=
   if s = "-" then some [] else
@@ -72,6 +78,17 @@ def fin (s : Sim) (r : Except Err Sim) (okReply : Sim → String) : Sim × Strin
   | .ok s' => (s', okReply s')
   | .error e => (s, "err:" ++ errName e)
 
+def parseFault (s : String) : Option Fault :=
+  if s = "-" then some .none else if s = "sub" then some .sub else
+  match s.splitOn ":" with
+  | ["defs", i] => i.toNat?.map Fault.defs
+  | _ => none
+
+def finK (r : Sim × Option Err) (reply : Sim → String) : Sim × String :=
+  match r.2 with
+  | none => (r.1, "ok " ++ reply r.1)
+  | some e => (r.1, "err:" ++ errName e ++ " " ++ reply r.1)
+
 def step (s : Sim) : List String → Sim × String
   | ["user", what, p, v] => fin s (userSet s what p v) fun _ => "ok"
   | ["mgr", n, d] =>
@@ -82,6 +99,17 @@ def step (s : Sim) : List String → Sim × String
     match parseForest k nodes with
     | none => (s, "bad-op")
     | some ts => fin s (addComponents s ts) fun s' => "ok " ++ showStrs s'.components
+  | ["addk", f, k, nodes] =>
+    match parseForest k nodes, parseFault f with
+    | some ts, some f => finK (addComponentsK s ts f) fun s' => showStrs s'.components
+    | _, _ => (s, "bad-op")
+  | ["setupk", boom, probes, attempts] =>
+    match parseAttempts attempts with
+    | none => (s, "bad-op")
+    | some at' =>
+      let sc : Script := { probes := strList probes, attempts := at' }
+      finK (setupK sc boom s) fun s' =>
+        s!"{showStrs (s'.log.drop s.log.length)} {showSeen (s'.seen.drop s.seen.length)} {showTried (s'.tried.drop s.tried.length)}"
   | ["setup", probes, attempts] =>
     match parseAttempts attempts with
     | none => (s, "bad-op")
@@ -89,7 +117,9 @@ def step (s : Sim) : List String → Sim × String
       let sc : Script := { probes := strList probes, attempts := at' }
       fin s (setup sc s) fun s' =>
         s!"ok {showStrs (s'.log.drop s.log.length)} {showSeen (s'.seen.drop s.seen.length)} {showTried (s'.tried.drop s.tried.length)}"
-  | ["get", p] => (s, match s.cfg.get p with | some v => "val " ++ v | none => "none")
+  | ["get", p] =>
+    if s.cfg.entries.any (fun e => e.path != p && Config.under p e.path) then (s, "val TREE") else
+    (s, match s.cfg.get p with | some v => "val " ++ v | none => "none")
   | ["set", p, v] =>
     fin s ((s.cfg.update outermost p v).map fun c => { s with cfg := c }) fun _ => "ok"
   | ["setl", layer, p, v] =>
